@@ -53,7 +53,9 @@ ASSUMPTIONS = [
     "order 0 (the library default) analyses the sinusoid minus each segment's mean, not a pure sinusoid: the sweeps judge it at the literal level plus the "
     "amplitude the removed constant can add, cmax*(|W(w)| + sqrt(t)*|W(w0)|) with cmax = A*|D_L(w0)|/L (triangle inequality, W from the independent window; "
     "measured < 0.1% of the limit); orders 1, 2 are not swept (no such bound). History independence (same request on a fresh analyzer and a pristine copy "
-    "of the record) is compared within twice the rounding floor above: both runs execute the same code on the same numbers",
+    "of the record) is compared within twice the rounding floor above: both runs execute the same code on the same numbers; the same budget is used for "
+    "independence of OTHER live analyzers (crowds: a member used interleaved vs its twin that was created, used and discarded before the session existed; measured "
+    "bit-identical on the unchanged tree, in process and from a fresh interpreter)",
 ]
 RULE = ("cases: unit-amplitude tone at fractional bin position m0 (at least 1.0001*sqrt(1+alpha^2) bins from 0 and L/2, often exactly there), "
         "L in {64,100,256,1000,4096,16384} (+ odd and larger lengths in thorough), P in [40,200], order -1, single segment (N=L, olap=0) and "
@@ -70,8 +72,17 @@ RULE = ("cases: unit-amplitude tone at fractional bin position m0 (at least 1.00
         "or as a strided view; every response is judged against the literal level AND compared with the same request on a fresh analyzer over a pristine copy "
         "of the record (a single-bin result does not depend on earlier analyses), and the caller's buffer must be bit-identical afterwards. "
         "Plans are run on the default / numpy / numba backend and must leave the record untouched too. "
+        "CROWDS (a 'compare the settings' session: other live objects must not matter): 2-4 Kaiser analyzers with DIFFERENT psll (e.g. 200 / 140 / 80; constructed larger-first, "
+        "smaller-first and in random order, each pattern every run) plus 0-2 non-Kaiser bystanders (hann / callables, often constructed last) are ALL set up first -- on one shared "
+        "record and on different records, alternately differing in psll only and in everything (Kaiser spelling, order -1/0, overlap, backend, fs, L, request form) -- and only "
+        "then used round-robin in a fresh random order each round (a, b, c, a, c, b, ...) for the line, ~6 offsets on both sides and the line again; in half of the sessions "
+        "'intruders' run between the rounds (an analyzer constructed late and kept or dropped, a module-level compute_single_bin / compute_spectrum with other settings). Every "
+        "response of a Kaiser member is judged literally for ITS OWN psll and main lobe (so a small-psll analyzer that picked up a wider main lobe fails at its first offsets), its "
+        "window sums against the independent window, and it is compared (twice the rounding floor; L and K exactly) with a TWIN analyzer with the same arguments on a pristine copy "
+        "of the record that was created, used and discarded BEFORE the session's first analyzer existed (a twin created during the session would itself rewrite shared state and "
+        "repair the member it is compared with); for the hand-made sessions and the first generated ones the twins also come from a fresh interpreter, one analyzer at a time. "
         "distinct by (L, P rounded, side, near/far offset, K class, entry point, request form, backend) / sweeps by (L, P rounded, segmentation, backend, order, "
-        "entry point, request form); non-trivial = the requested level is above the rounding floor")
+        "entry point, request form) / crowds by (L, P rounded, construction pattern, position in the construction order, same/different records, backend, order, intruders); non-trivial = the requested level is above the rounding floor")
 
 SLACK_DB = 0.0
 STATS: Dict[str, Any] = {}
@@ -408,6 +419,337 @@ def check_sweep(P: C.Part, c: Dict[str, Any]) -> None:
               "offsets": [round(d, 3) for d in c["deltas"][:4]]}, cap=3)
 
 
+# ================================================================ crowds: SEVERAL analyzers alive at once, used interleaved
+# (seeded defect C12g: the resolved-settings dict became a CLASS attribute that __init__ fills with .update(), so every live analyzer builds its
+#  Kaiser window with the shape parameter -- and window function, order, overlap, backend -- of whichever analyzer was constructed LAST.)
+# The property is a statement about ONE analyzer and ITS OWN construction arguments: what else is alive in the process, what was constructed
+# before or after it, and what other objects analysed in between cannot matter.  A case is a "settings session": every analyzer is set up
+# first, with different psll (larger first / smaller first / random), Kaiser spellings, non-Kaiser bystanders (hann / callables), orders,
+# overlaps, backends, fs and segment lengths, on one shared record or on different records; then they are used round-robin in a fresh random
+# order every round (a, b, c, a, c, b, ...) for the line and the offsets, optionally with "intruders" between the rounds (an analyzer
+# constructed late and kept or dropped, a module-level compute_single_bin / compute_spectrum call with other settings: the wrappers construct
+# analyzers internally).  Every response of a Kaiser member is judged
+#   (i)  literally, -(P-1) dB for ITS OWN P beyond ITS OWN main lobe (`_judge`; so a psll=80 analyzer that got the wider psll=200 main lobe fails at
+#        its first offsets, and a psll=200 one that got the psll=80 window fails in the side lobes), window sums against the independent window;
+#   (ii) against a TWIN: an analyzer with the same arguments on a pristine copy of the record, created, used for the same requests and DISCARDED
+#        before any member of the crowd exists.  The order matters: a twin created while the crowd is alive would itself be "the analyzer constructed
+#        last" -- it would rewrite whatever state is shared and so REPAIR (same settings) the very member it is compared with, hiding the defect (this is
+#        why the per-analysis `fresh` analyzer of the sweeps cannot see it).  Create-use-discard in sequence is the one pattern in which a
+#        constructor has just rewritten everything an analysis reads, so the twin is right under any "the latest construction wins" sharing.
+#        State that is pinned by the FIRST construction / import-time history of this process would contaminate an in-process twin too: that is
+#        what (i) is for (it uses no twin), and for a few cases per run the twins are additionally computed in a fresh interpreter that has
+#        imported the library and done nothing else (`_child_main`), one analyzer at a time.
+#        Same code on the same numbers: compared within twice the rounding floor (as the sweeps do); L and K compare exactly.
+CROWD_BYSTANDERS = ["hann", "ramp", "blackman", "neglobe", "hanning", "rect"]
+CROWD_PATTERNS = [(a, r) for a in ("desc", "asc", "random") for r in ("same", "different")]
+CROWD_MARK = "@@C12-FRESH-TWINS@@"
+
+
+def gen_crowd(rng: np.random.Generator, thorough: bool, i: int) -> Dict[str, Any]:
+    arr, recmode = CROWD_PATTERNS[i % len(CROWD_PATTERNS)]
+    uniform = (i // len(CROWD_PATTERNS)) % 2 == 0        # a "compare the settings" session: the Kaiser members differ in psll ONLY
+    nk = int(rng.choice([2, 3, 3, 4]))
+    Ps: List[float] = [200.0, 140.0, 80.0, 40.0][:nk] if rng.random() < 0.4 else []
+    if not Ps:
+        while len(Ps) < nk:
+            p = float(rng.choice([200.0, 200.0, 40.0, 60.0, 80.0, 100.0, 120.0, 160.0, float(rng.uniform(40, 200)), float(rng.uniform(40, 200))]))
+            if all(abs(p - q) >= 8.0 for q in Ps):
+                Ps.append(p)
+    Ps = sorted(Ps, reverse=True) if arr == "desc" else sorted(Ps) if arr == "asc" else [Ps[j] for j in rng.permutation(nk)]
+    Lpool = [64, 100, 256, 1000] + ([65, 127, 1001, 4096] if thorough else [])
+
+    def settings():
+        return {"L": int(rng.choice(Lpool)), "order": int(rng.choice([-1, 0])), "olap": [0.0, 0.5, None, float(rng.uniform(0.05, 0.9))][int(rng.integers(0, 4))],
+                "backend": str(rng.choice(SWEEP_BACKENDS)), "fs": float(rng.choice([1.0, 2.0, 1000.0, float(10 ** rng.uniform(-2, 4))])),
+                "how": str(rng.choice(["L", "L", "fres", "fres-frac"]))}
+    common = settings()
+    nrec = 1 if recmode == "same" else 2
+    members: List[Dict[str, Any]] = []
+    for j, p in enumerate(Ps):
+        s = dict(common) if uniform else settings()
+        members.append({"role": "kaiser", "P": p, "win": str(rng.choice(["kaiser", "kaiser", "np_kaiser", "sp_kaiser"])), "rec": j % nrec, **s,
+                        "q": s["L"] + float(rng.choice([-1.0, 1.0])) * float(rng.uniform(0.05, 0.45))})
+    for _ in range(int(rng.choice([0, 1, 1, 2]))):
+        s = settings()
+        b = {"role": "bystander", "P": None, "win": str(rng.choice(CROWD_BYSTANDERS)), "rec": int(rng.integers(0, nrec)), **s, "order": int(rng.choice([-1, 0, 1, 2])),
+             "how": "L", "q": float(s["L"])}
+        members.insert(len(members) if rng.random() < 0.5 else int(rng.integers(0, len(members) + 1)), b)     # often the LAST one constructed
+    records = []
+    for r in range(nrec):
+        on = [m for m in members if m["rec"] == r]
+        kz = [m for m in on if m["role"] == "kaiser"]
+        lo = max(1.0001 * hw_bins(m["P"]) / m["L"] for m in kz)
+        hi = min(0.5 - 1.0001 * hw_bins(m["P"]) / m["L"] for m in kz)
+        u = rng.random()
+        nu = lo if u < 0.1 else hi if u < 0.2 else float(rng.uniform(lo, hi))
+        Lmax = max(m["L"] for m in on)
+        k = int(rng.choice([1, 2, 3, 5, 8]))
+        records.append({"N": int(k * Lmax + (0 if rng.random() < 0.5 else rng.integers(0, Lmax))), "nu": nu, "phi": float(rng.uniform(0, 2 * np.pi)),
+                        "A": float(rng.choice([1.0, 1.0, float(10 ** rng.uniform(-3, 3))]))})
+    for m in members:
+        if m["role"] != "kaiser":
+            m["deltas"] = []
+            continue
+        L, dmin = m["L"], 1.0001 * hw_bins(m["P"])
+        m0, lo, hi = records[m["rec"]]["nu"] * L, dmin, L / 2 - dmin
+        deltas: List[float] = []
+        for side in (1.0, -1.0):
+            room = min(L / 4.0, (hi - m0) if side > 0 else (m0 - lo))
+            if room < dmin:
+                continue
+            ds = [dmin, max(hw_bins(m["P"]) + float(rng.uniform(0.02, 0.3)), dmin), dmin + float(rng.uniform(0, 1.5)) if rng.random() < 0.5 else float(rng.uniform(dmin, room))]
+            deltas += [side * min(d, room) for d in ds]
+        m["deltas"] = [deltas[j] for j in rng.permutation(len(deltas))]
+    # intruders: things that happen between two rounds of a session and construct analyzers of their own
+    intruders: List[Dict[str, Any]] = []
+    if rng.random() < 0.5:
+        for _ in range(int(rng.integers(1, 4))):
+            s = settings()
+            kaiser = rng.random() < 0.7
+            intruders.append({"what": str(rng.choice(["ctor-keep", "ctor-drop", "func", "func", "spectrum"])), "rec": int(rng.integers(0, nrec)),
+                              "P": float(rng.choice([40.0, 60.0, 110.0, 200.0, float(rng.uniform(40, 200))])) if kaiser else None,
+                              "win": "kaiser" if kaiser else str(rng.choice(CROWD_BYSTANDERS)), **s, "order": int(rng.choice([-1, 0, 1, 2])),
+                              "L": int(min(s["L"], 256))})
+    rounds = max(len(m["deltas"]) for m in members) + 2
+    slots = sorted(int(v) for v in rng.integers(1, rounds, size=len(intruders)))
+    schedule: List[List[Any]] = []
+    for j in range(rounds):
+        schedule += [["x", n] for n, a in enumerate(slots) if a == j]
+        schedule += [[int(mi), j] for mi in rng.permutation(len(members)) if members[mi]["role"] != "kaiser" or j < len(members[mi]["deltas"]) + 2]
+    return {"kind": "crowd", "arr": arr, "recmode": recmode, "uniform": bool(uniform), "records": records, "members": members, "intruders": intruders,
+            "schedule": schedule}
+
+
+def _crowd_opts(m: Dict[str, Any]) -> Dict[str, Any]:
+    o = dict(win_opts(m["win"], m.get("P")), order=m["order"])
+    if m.get("olap") is not None:
+        o["olap"] = m["olap"]
+    if m.get("backend", "auto") != "auto":
+        o["backend"] = m["backend"]
+    return o
+
+
+def crowd_records(c: Dict[str, Any]) -> List[np.ndarray]:
+    return [tone(r["N"], r["A"], LD(2) * np.arccos(LD(-1)) * LD(r["nu"]), r["phi"]) for r in c["records"]]
+
+
+def member_freqs(c: Dict[str, Any], m: Dict[str, Any]):
+    """(tone position in bins of fs/L, the frequencies this member is asked for: the line, its offsets, the line again)"""
+    m0 = c["records"][m["rec"]]["nu"] * m["L"]
+    return m0, [(m0 + d) * m["fs"] / m["L"] for d in [0.0] + list(m["deltas"]) + [0.0]]
+
+
+def _crowd_one(an, f: float, kw: Dict[str, Any]) -> Dict[str, Any]:
+    try:
+        r = an.compute_single_bin(f, **kw)
+        return {"XX": float(r.XX[0]), "L": int(np.asarray(r.L).ravel()[0]), "K": int(len(r.D[0])), "S12": float(r.S12[0]), "S2": float(r.S2[0])}
+    except Exception as ex:  # noqa
+        return {"raises": repr(ex)}
+
+
+def crowd_twins(c: Dict[str, Any]) -> Dict[str, Any]:
+    """member index -> its requests answered by a twin analyzer on a pristine copy of the record that is created, used and discarded before
+    the next one is created (and, in check_crowd, before any member of the crowd exists)"""
+    import speckit
+    recs = crowd_records(c)
+    out: Dict[str, Any] = {}
+    for mi, m in enumerate(c["members"]):
+        if m["role"] != "kaiser":
+            continue
+        try:
+            an = speckit.SpectrumAnalyzer(recs[m["rec"]].copy(), m["fs"], **_crowd_opts(m))
+        except Exception as ex:  # noqa
+            out[str(mi)] = [{"raises": repr(ex)}] * (len(m["deltas"]) + 2)
+            continue
+        kw = request_kw(m)
+        out[str(mi)] = [_crowd_one(an, f, kw) for f in member_freqs(c, m)[1]]
+        del an              # discarded (reference counting frees it here) before the next analyzer is constructed
+    return out
+
+
+def _child_main() -> None:
+    """fresh interpreter: imports the library and answers the twins' requests of every case read from stdin, one analyzer at a time"""
+    import json
+    import os
+    import sys
+    req = json.load(sys.stdin)
+    import speckit
+    outs = [crowd_twins(c) for c in req["cases"]]
+    sys.stdout.write("\n" + CROWD_MARK + json.dumps({"speckit": os.path.dirname(speckit.__file__), "twins": outs}) + "\n")
+
+
+def fresh_twins(cases: List[Dict[str, Any]], notes: List[str]) -> List[Any]:
+    """the twins of `cases` from a fresh interpreter ([None, ...] when that is unavailable: infrastructure, not the library)"""
+    import json
+    import os
+    import subprocess
+    import sys
+    if not cases:
+        return []
+    try:
+        import speckit
+        env = dict(os.environ, PYTHONPATH=C.VERIF + os.pathsep + os.environ.get("PYTHONPATH", ""))
+        r = subprocess.run([sys.executable, "-W", "ignore", "-c", "from vk.props.C12 import _child_main; _child_main()"],
+                           input=json.dumps({"cases": cases}), capture_output=True, text=True, cwd=C.VERIF, env=env, timeout=120)
+        ans = json.loads(r.stdout.split(CROWD_MARK, 1)[1])
+        if ans["speckit"] != os.path.dirname(speckit.__file__) or len(ans["twins"]) != len(cases):
+            raise RuntimeError(f"fresh interpreter imported {ans['speckit']}")
+        return ans["twins"]
+    except Exception as ex:  # noqa
+        notes.append(f"crowd: fresh-interpreter twins unavailable ({type(ex).__name__}: {str(ex)[:120]}); in-process twins (created, used and discarded before the crowd exists) only")
+        return [None] * len(cases)
+
+
+def _run_intruder(c: Dict[str, Any], x: Dict[str, Any], recs: List[np.ndarray], keep: List[Any]) -> None:
+    import speckit
+    o = _crowd_opts(x)
+    rec, fs = recs[x["rec"]], x["fs"]
+    L = int(min(x["L"], len(rec)))
+    try:
+        if x["what"].startswith("ctor"):
+            an = speckit.SpectrumAnalyzer(rec, fs, **o)
+            if x["what"] == "ctor-keep":
+                keep.append(an)
+        elif x["what"] == "func":
+            speckit.compute_single_bin(rec, fs, c["records"][x["rec"]]["nu"] * fs, L=L, **o)
+        else:
+            speckit.compute_spectrum(rec[:3000], fs, Jdes=6, Kdes=2, Lmin=32, scheduler="lpsd", **o)
+    except Exception:  # noqa  (whether an intruder's own request is accepted is not this property's business)
+        pass
+
+
+def check_crowd(P: C.Part, c: Dict[str, Any], fresh: Any = None) -> None:
+    import speckit
+    remember(c)
+    members = c["members"]
+    recs = crowd_records(c)
+    before = [r.tobytes() for r in recs]
+    P.cases += 1
+    P.hit(f"crowd.{c['arr']},{c['recmode']}-record,{'psll-only' if c['uniform'] else 'mixed-settings'},{'intruders' if c['intruders'] else 'no-intruders'}")
+    # (1) the twins: each created, used and discarded BEFORE any member exists
+    twins = {"in-process": crowd_twins(c)}
+    if fresh:
+        twins["fresh-interpreter"] = fresh
+        P.hit("crowd.fresh-interpreter-twins")
+    # (2) the session: everything is set up first ...
+    lineup = " | ".join(f"#{k} {m['win']}" + (f" psll={m['P']:.2f}" if m["role"] == "kaiser" else "") + f" order={m['order']} olap={m['olap']} {m['backend']} fs={m['fs']:g} "
+                        f"L={m['L']} rec{m['rec']}" for k, m in enumerate(members))
+    ans: List[Any] = []
+    for k, m in enumerate(members):
+        try:
+            ans.append(speckit.SpectrumAnalyzer(recs[m["rec"]], m["fs"], **_crowd_opts(m)))
+        except Exception as ex:  # noqa
+            ans.append(None)
+            if m["role"] == "kaiser":
+                viol(P, f"constructing analyzer #{k} of [{lineup}] raised {ex!r}", {"subclaim": "leakage", "path": "single", "raises": True}, c, member=k)
+                return
+    # ... then used interleaved
+    intr = [x["what"] + ":" + x["win"] + ("" if x["P"] is None else f" psll={x['P']:.1f}") for x in c["intruders"]]
+    kws = [request_kw(m) if m["role"] == "kaiser" else {"L": m["L"]} for m in members]
+    freqs = [member_freqs(c, m) for m in members]
+    got: Dict[int, Dict[int, Any]] = {k: {} for k in range(len(members))}
+    keep: List[Any] = []
+    for ev in c["schedule"]:
+        if ev[0] == "x":
+            _run_intruder(c, c["intruders"][ev[1]], recs, keep)
+            continue
+        k, j = int(ev[0]), int(ev[1])
+        if ans[k] is None:
+            continue
+        if members[k]["role"] != "kaiser":
+            _crowd_one(ans[k], freqs[k][1][0], kws[k])      # a bystander analyses its line every round; its answers are not this property's business
+            continue
+        P.cases += 1
+        got[k][j] = _crowd_one(ans[k], freqs[k][1][j], kws[k])
+    # (3) every Kaiser member against ITS OWN arguments
+    nk = [k for k, m in enumerate(members) if m["role"] == "kaiser"]
+    for k in nk:
+        if full(P):
+            break
+        m = members[k]
+        L, Pdb, fs, order, A = m["L"], m["P"], m["fs"], m["order"], c["records"][m["rec"]]["A"]
+        m0, fl_ = freqs[k]
+        kw, form = kws[k], ("L" if "L" in kws[k] else m["how"])
+        sig0 = {"subclaim": "leakage", "path": "single"}
+        later = [f"#{q} ({members[q]['win']}" + (f" psll={members[q]['P']:.2f})" if members[q]["role"] == "kaiser" else ")") for q in range(k + 1, len(members))]
+        who = (f"analyzer #{k} of a session [{lineup}]" + (f" + intruders between the rounds {intr}" if intr else "")
+               + f", used interleaved; constructed after it: {', '.join(later) if later else 'none'}")
+        g0 = got[k].get(0)
+        if g0 is None:
+            continue
+        if "raises" in g0:
+            viol(P, f"single-bin analysis of the line raised {g0['raises']} on {who}", dict(sig0, raises=True), c, member=k)
+            continue
+        w = ref_window(m["win"], L, Pdb).astype(LD)
+        S1, S2 = float(w.sum()), float((w * w).sum())
+        judged = g0["L"] == L
+        if not judged:
+            P.hit("crowd.reported-L-differs")
+        else:
+            for nm, ob, ex in (("S12", g0["S12"], S1 * S1), ("S2", g0["S2"], S2)):
+                if not abs(ob - ex) <= 1e-10 * abs(ex):
+                    viol(P, f"{nm} = {ob!r} but the DFT-even Kaiser window with beta = kaiser_alpha({Pdb})*pi and length {L} gives {ex!r}: the window is not the one "
+                            f"requested at construction, on {who}", dict(sig0, subclaim="window", field=nm), c, member=k, observed=ob, expected=ex)
+                    break
+            XX0, K = g0["XX"], g0["K"]
+            peak = (A / 2 * S1) ** 2
+            if not (0.5 * peak <= XX0 <= 2.0 * peak):
+                viol(P, f"response at the tone's own frequency is {XX0!r}, expected about (A*S1/2)^2 = {peak!r}, on {who}", dict(sig0, subclaim="peak"), c, member=k)
+                judged = XX0 > 0
+        omega0 = 2.0 * np.pi * fl_[0] / fs
+        pos = "first" if k == nk[0] else "last" if k == nk[-1] else "middle"
+        stop_twin, stop_leak = set(), not judged
+        for j in sorted(got[k]):
+            if full(P):
+                break
+            g = got[k][j]
+            d = ([0.0] + list(m["deltas"]) + [0.0])[j]
+            f = fl_[j]
+            omega = 2.0 * np.pi * f / fs
+            if "raises" in g:
+                viol(P, f"single-bin analysis raised {g['raises']} at offset {d} bins on {who}", dict(sig0, raises=True), c, member=k, delta=d)
+                break
+            # (ii) the twin(s)
+            fl = floor_amp(A, S1, L, omega)
+            for tname, tw in twins.items():
+                t = (tw.get(str(k)) or [None] * (j + 1))[j] if isinstance(tw, dict) else None
+                if t is None or tname in stop_twin:
+                    continue
+                P.cases += 1
+                if "raises" in t:
+                    continue            # the same request is rejected for an analyzer used alone: nothing to compare (and not a leakage question)
+                same = g["L"] == t["L"] and g["K"] == t["K"]
+                P.hit(f"crowd.twin[{tname}]:" + ("bit-identical" if same and g["XX"] == t["XX"] else "within-floor" if same else "differs"))
+                if not (same and abs(math.sqrt(max(g["XX"], 0.0)) - math.sqrt(max(t["XX"], 0.0))) <= 2.0 * fl):
+                    viol(P, f"{who}: request number {j + 1} on it, at {f!r} Hz = {d:+.4f} bins from the tone (request {kw}), gives XX = {g['XX']!r} with L = {g['L']}, K = {g['K']}; "
+                            f"a twin with the same construction arguments on a pristine copy of the record, created, used and discarded before the others existed ({tname}), gives "
+                            f"XX = {t['XX']!r} with L = {t['L']}, K = {t['K']} ({10 * math.log10(max(g['XX'], 1e-320) / max(t['XX'], 1e-320)):+.2f} dB): "
+                            f"the result depends on other analyzers in the process", {"subclaim": "other-analyzers", "path": "single", "twin": tname}, c, member=k, delta=d,
+                         XX=g["XX"], XX_twin=t["XX"], request_number=j + 1)
+                    stop_twin.add(tname)
+            if d == 0.0 or stop_leak or g["L"] != L:
+                continue
+            # (i) the property's level, literally, for this analyzer's own psll
+            extra = mean_allowance(A, w, L, omega0, omega, Pdb) if order == 0 else 0.0
+            ok, dominated, lim = _judge(P, c, sig0, g["XX"], XX0, Pdb, A, S1, L, omega, K,
+                                        {"L": L, "P": Pdb, "m0": m0, "delta": d, "K": K, "order": order, "backend": m["backend"], "path": "crowd"},
+                                        extra=extra, stat="worst" if order == -1 else "worst-order0")
+            if not dominated:
+                P.nontrivial.add(("crowd", L, round(Pdb), c["arr"], pos, c["recmode"], m["backend"], order, bool(c["intruders"])))
+            if not ok:
+                rel = 10 * math.log10(max(g["XX"], 1e-320) / XX0)
+                viol(P, f"Kaiser psll={Pdb:.2f} dB, L={L} (requested by {kw}), tone at bin {m0:.4f}, request number {j + 1} at {f!r} Hz = {d:+.4f} bins away (main lobe half-width "
+                        f"{hw_bins(Pdb):.3f}) on {who}: response is {rel:.2f} dB relative to the response at the tone, required <= {-(Pdb - 1):.2f} dB (rounding floor included)",
+                     dict(sig0, side="+" if d > 0 else "-", request=form), c, member=k, delta=d, observed_db=rel, XX=g["XX"], XX0=XX0, request_number=j + 1)
+                if sig0.get("envelope") == "beyond":
+                    stop_leak = True
+    if [r.tobytes() for r in recs] != before:
+        viol(P, f"a caller's record was MODIFIED during a session of several analyzers [{lineup}]", {"subclaim": "record-intact", "path": "single"}, c)
+    P.sample({"op": "crowd", "arr": c["arr"], "records": [r["N"] for r in c["records"]],
+              "members": [[m["win"], m["P"], m["L"], m["order"], m["backend"], m["rec"]] for m in members], "intruders": [x["what"] for x in c["intruders"]],
+              "schedule": c["schedule"][:12]}, cap=3)
+
+
 # ================================================================ full-plan leakage
 def gen_plan(rng: np.random.Generator, thorough: bool) -> Dict[str, Any]:
     N = int(rng.integers(2000, 20000 if thorough else 6000))
@@ -480,7 +822,16 @@ def _check_plan(P: C.Part, c: Dict[str, Any], x: np.ndarray) -> None:
     P.hit(f"plan.bins-checked={min(done, 8)}")
 
 
-CHECKS = {"leak": check_leak, "plan": check_plan, "sweep": check_sweep}
+def _crowd_case(arr: str, Ps: List[float], last: Any) -> Dict[str, Any]:
+    """a hand-made session on one record of 5 segments of L = 1000: Kaiser analyzers with the library's default order / overlap / backend that differ in psll only"""
+    mk = lambda role, P, win: {"role": role, "P": P, "win": win, "rec": 0, "L": 1000, "order": 0, "olap": None, "backend": "auto", "fs": 1.0, "how": "L", "q": 1000.0,  # noqa: E731
+                               "deltas": [] if P is None else [s * (1.0001 * hw_bins(P) + e) for e in (0.0, 0.15, 1.0, 12.3) for s in (1.0, -1.0)]}
+    members = [mk("kaiser", P, "np_kaiser") for P in Ps] + ([mk("bystander", None, last)] if last else [])
+    return {"kind": "crowd", "arr": arr, "recmode": "same", "uniform": True, "records": [{"N": 5000, "nu": 0.25037, "phi": 0.4, "A": 0.8}], "members": members,
+            "intruders": [], "schedule": [[k, j] for j in range(10) for k in ((j + np.arange(len(members))) % len(members)).tolist()[::(1 if j % 2 else -1)]]}
+
+
+CHECKS = {"leak": check_leak, "plan": check_plan, "sweep": check_sweep, "crowd": check_crowd}
 CORPUS = [
     # tightest configurations found on the unchanged tree: short window / high P (first side lobe at -(P-0.94) dB), tone one main lobe from DC at low P
     {"kind": "leak", "L": 64, "N": 64, "P": 195.0, "fs": 1.0, "m0": 8.2, "phi": 0.3, "A": 1.0, "deltas": [8.0234375, 8.5, 9.0, 12.0], "olap": 0.0, "via": "func", "win": "kaiser"},
@@ -494,6 +845,11 @@ CORPUS = [
      "order": 0, "backend": "numpy", "via": "method", "how": "L", "q": 256.3, "win": "kaiser", "layout": "contig"},
     {"kind": "sweep", "cls": "K4", "L": 1000, "N": 4000, "P": 200.0, "fs": 1.0, "m0": 123.5, "phi": 0.7, "A": 1.0, "deltas": [8.2, -8.2, 8.7, 12.0], "olap": 0.0,
      "order": -1, "backend": "numpy", "via": "func", "how": "fres", "q": 1000.3, "win": "kaiser", "layout": "contig"},
+    # seeded defect C12g (wave 7): the resolved settings became a class-level dict shared by all live analyzers; three analyzers with psll 200 / 140 / 80
+    # (library defaults otherwise) are set up on one record and only then used: the first two leaked at -94 / -92 dB.  Larger psll first, then smaller first
+    # (there the psll=80 analyzer gets the psll=200 main lobe), with a hann analyzer constructed last in the second session
+    _crowd_case("desc", [200.0, 140.0, 80.0], None),
+    _crowd_case("asc", [80.0, 140.0, 200.0], "hann"),
 ]
 
 
@@ -570,14 +926,29 @@ def oracle(ctx, intensive: bool = False, hints=()) -> C.Part:
     P = C.Part()
     STATS.clear()
     mult = 4 if intensive else 1
+    try:
+        srng, crng = ctx.rng.spawn(2)           # srng is the stream the sweeps have always had (the first child); crng is the crowds'
+    except Exception:  # noqa  (a generator without a seed sequence)
+        srng, crng = (np.random.default_rng([k, int(getattr(ctx, "seed", 0) or 0)]) for k in (0xC12E, 0xC129))
+    # crowds (several analyzers alive at once, used interleaved): every (construction order of the psll values, same / different records) pattern
+    # each round, alternately "psll only" and "everything differs"; the twins of the hand-made sessions and of the first generated ones are also
+    # computed in a fresh interpreter (one subprocess per run)
+    crowds = [gen_crowd(np.random.default_rng(int(crng.integers(0, 2 ** 62))), ctx.thorough, i) for i in range(2 * len(CROWD_PATTERNS) * ctx.scale(1, 4) * mult)]
+    n_fresh = ctx.scale(2, 8)
+    first = [c for c in CORPUS if c["kind"] == "crowd"] + crowds[:n_fresh]
+    fresh = dict(zip((id(c) for c in first), fresh_twins(first, P.notes)))
     for c in CORPUS:
-        CHECKS[c["kind"]](P, c)
+        CHECKS[c["kind"]](P, c, **({"fresh": fresh.get(id(c))} if c["kind"] == "crowd" else {}))
+    t0 = time.time()
+    for i, c in enumerate(crowds):
+        if full(P):
+            break
+        if time.time() - t0 > 12.0 * ctx.scale(1, 4) * mult or ctx.time_left() < 60:
+            P.notes.append(f"crowd: time share reached after {i} of {len(crowds)} cases")
+            break
+        check_crowd(P, c, fresh=fresh.get(id(c)))
     # sweeps first (their own generator stream, spawned from ctx.rng WITHOUT consuming it, so the leak / plan cases below are those of earlier
     # runs): every (segmentation class, backend, order) through both entry points, each round; capped at 25 s per round
-    try:
-        srng = ctx.rng.spawn(1)[0]
-    except Exception:  # noqa  (a generator without a seed sequence)
-        srng = np.random.default_rng([0xC12E, int(getattr(ctx, "seed", 0) or 0)])
     t0 = time.time()
     n_sweep = 2 * SWEEP_COMBOS * ctx.scale(1, 4) * mult
     for i in range(n_sweep):
@@ -616,6 +987,8 @@ def replay(ctx, data) -> C.Part:
             if h.get("kind") in CHECKS:
                 CHECKS[h["kind"]](C.Part(), h)
         c = v["replay"]["case"]
-        if c.get("kind") in CHECKS:
+        if c.get("kind") == "crowd":
+            check_crowd(P, c, fresh=fresh_twins([c], P.notes)[0] if v.get("signature", {}).get("twin") == "fresh-interpreter" else None)
+        elif c.get("kind") in CHECKS:
             CHECKS[c["kind"]](P, c)
     return P
